@@ -162,7 +162,7 @@ pub fn record(args: &[String]) -> i32 {
             for _ in 0..n {
                 let k = rand_key(&mut rng, &pool);
                 pool.push(k.clone());
-                let lid = if rng.chance(1, 10) { -1 } else { 0 };
+                let lid = if rng.chance(1, 10) { *rng.pick(&[-1i64, -1, -2, -7, -32768]) } else { 0 }; // every negative left id means "not indexed"
                 if lid >= 0 {
                     let c = count.entry(k.clone()).or_default();
                     if *c >= 127 {
